@@ -761,6 +761,10 @@ def _add_lib_threads(x, ops, prop):
              "C04": ["site", "site", "site", "derive"]}[prop]
     out = []
     for op in ops:
+        if op["op"] == "mt_block" and x.random() < 0.6:
+            # the blocking value() calls of several user threads, pre-empted between the
+            # library's lines as well (not only at the steps of their event loops)
+            op = {**op, "p": x.choice([0.02, 0.1, 0.3])}
         out.append(op)
         if op["op"] in ("derive", "qmd", "md", "exec_sync") and x.random() < 0.08:
             out.append({"op": "mt_lib", "p": x.choice([0.03, 0.1, 0.3]),
@@ -2599,7 +2603,17 @@ class Forest:
                     w.mt.yield_point(None)
             return fn
 
-        vloop.run_threads(w, [user(cs) for cs in plans])
+        pp = op.get("p") or 0.0
+        if pp:
+            from .core import func_adl_src
+            from .preempt import Preempt
+
+            Preempt(None, 0, "")._preimport()  # no import (lock) inside the block
+            self.stat("fault_threads_preempted_inside_value")
+        vloop.run_threads(w, [user(cs) for cs in plans], pp,
+                          (func_adl_src().rstrip("/") + "/func_adl/") if pp else None)
+        if pp:
+            self.stat("thread_switches_inside_the_library", w.last_mt.line_switches)
         self.sync_block += w.now - t0
         self.stat("fault_multi_thread_block")
         self.stat("mt_calls", sum(len(cs) for cs in plans))
